@@ -619,7 +619,7 @@ def generate():
     L.append("   translator); main.rs / cli.rs call from_file, patch_with_options, verify in this order (checked). *)")
     L.append("")
     L.append("(* conf_template.toml: the documented file *)")
-    L.append("Definition template_entries : list (text * cval) := Eval vm_compute in")
+    L.append("Definition conf_template_entries : list (text * cval) := Eval vm_compute in")
     L.append("  " + coq_list([f"({coq_string(k)}, {v})" for k, v in template]) + ".")
     L.append("")
     L.append("(* [default: X] notes of the --help texts of struct Opt (informative; strings as written) *)")
@@ -627,7 +627,7 @@ def generate():
     L.append("  " + coq_list([f"({coq_string(k)}, {coq_string(v)})" for k, v in opt_doc_defaults(CONFIG_RS)]) + ".")
     L.append("")
     L.append("(* ---- teos-cli: cli_config.rs ---- *)")
-    L += emit_descr("cli_", cfields, cserde, cdefaults, copts, cpatch)
+    L += emit_descr("teoscli_", cfields, cserde, cdefaults, copts, cpatch)
     return "\n".join(L) + "\n"
 
 
